@@ -16,6 +16,7 @@ import (
 	"github.com/refraction-networking/uquic/verif/refwire"
 	"github.com/refraction-networking/uquic/verif/specgen"
 	"io"
+	"net"
 	"sort"
 	"strings"
 	"sync"
@@ -47,7 +48,9 @@ type Case struct {
 	ClientWin []int `json:"client_win_kb,omitempty"`
 	// Observed: "" | "log" (debug logging on, output discarded) | "trace" (Config.Tracer set on both sides, events
 	// dropped) | "both": what the endpoints do must not depend on whether anybody watches
-	Observed  string       `json:"observed,omitempty"`
+	Observed string `json:"observed,omitempty"`
+	// Retry: the server validates the client's address with a Retry first
+	Retry     bool         `json:"retry,omitempty"`
 	V2        bool         `json:"v2,omitempty"`
 	RTTms     int          `json:"rtt_ms"`
 	IdleMs    int          `json:"idle_ms"`
@@ -125,6 +128,7 @@ func GenCase(t *rapid.T) Case {
 		c.ClientWin = []int{rapid.SampledFrom([]int{2, 4, 16, 64}).Draw(t, "bl"), rapid.SampledFrom([]int{2, 4, 16, 64}).Draw(t, "br"), rapid.SampledFrom([]int{2, 4, 16, 64}).Draw(t, "uw")}
 	}
 	c.Observed = rapid.SampledFrom([]string{"", "", "", "", "", "", "", "", "", "log", "trace", "both"}).Draw(t, "observed")
+	c.Retry = rapid.IntRange(0, 5).Draw(t, "retry") == 0
 	c.RTTms = rapid.SampledFrom([]int{2, 10, 30, 80, 200}).Draw(t, "rtt")
 	c.IdleMs = rapid.SampledFrom([]int{5000, 10000, 30000}).Draw(t, "idle")
 	maxSize := 256 << 10
@@ -357,6 +361,10 @@ func runCase(c Case, u *vf.Unit, trace *any) *vf.Verdict {
 		return q
 	}
 	st := &quic.Transport{Conn: w.ServerConn}
+	if c.Retry {
+		st.VerifySourceAddress = func(net.Addr) bool { return true }
+		u.Class("server-sends-retry")
+	}
 	defer st.Close()
 	sconf := conf()
 	sconf.Versions = []quic.Version{quic.Version1, quic.Version2}
